@@ -161,26 +161,32 @@ def meet(a, b):
 
 
 class MustFlow(object):
-    """Summary-based interprocedural must analysis.
+    """Summary-based interprocedural must analysis with optional kills.
 
-    gen(site) -> (events, fallible): events generated by an extern call/drop site; fallible=True means
-    the events only count once the Result has been seen Ok.
-    subst(event, site, callee_body) -> event: instantiates parameter-relative events of a callee
-    summary at a call site (identity by default).
+    gen(site) -> (events, fallible) for an extern call/drop site; fallible=True means the events
+    only count once the Result has been seen Ok (their kills apply at the attempt).
+    subst(event, site, callee) -> event | None: instantiates parameter-relative events.
+    kills(killer, event) -> bool and killers(site) -> events that may occur at/under the site
+    (from MayFlow): an event leaves the must-set when something that may invalidate it may happen.
     """
 
     def __init__(self, prog, gen, subst=None, concrete=None,
-                 once_callbacks=("dyn", "param", "direct", "drop")):
+                 once_callbacks=("dyn", "param", "direct", "drop"), pruned=None, kills=None,
+                 killers=None, role_events=None):
         self.prog = prog
         self.gen = gen
         self.subst = subst
         self.concrete = concrete
+        self.pruned = pruned or (lambda body: ())
+        self.kills = kills
+        self.killers = killers
+        self.role_events = role_events or {}
         self.once = set(once_callbacks)
         self.rflow = {}
         self.summ_ret = {}
         self.summ_ok = {}
         self.rel_in = {}        # body path -> {bb: set}
-        self.edge_gen = {}      # body path -> {(bb, succ): set}
+        self.edge_ops = {}      # body path -> {(bb, succ): [ops]}
         self._in_progress = set()
 
     def rf(self, body):
@@ -189,6 +195,16 @@ class MustFlow(object):
             r = ResultFlow(self.prog, body)
             self.rflow[body.path] = r
         return r
+
+    def _sub(self, s, site, tgt):
+        if self.subst is None:
+            return frozenset(s)
+        out = set()
+        for e in s:
+            r = self.subst(e, site, tgt)
+            if r is not None:
+                out.add(r)
+        return frozenset(out)
 
     def _callee_summaries(self, site):
         """(must_ret, must_ok) contributed by local code that certainly runs at this site."""
@@ -216,53 +232,57 @@ class MustFlow(object):
             ret |= self._sub(self.summ_ret.get(tgt.path, frozenset()), site, tgt)
         return (ret, ret)
 
-    def _sub(self, s, site, tgt):
-        if self.subst is None:
-            return frozenset(s)
-        out = set()
-        for e in s:
-            r = self.subst(e, site, tgt)
-            if r is not None:
-                out.add(r)
-        return frozenset(out)
+    def _apply(self, S, ops):
+        if S is ALL:
+            return S
+        for kind, x in ops:
+            if kind == "kill":
+                if self.kills is not None and x:
+                    S = frozenset(e for e in S if not any(self.kills(k, e) for k in x))
+            else:
+                S = S | x
+        return S
 
     def summarize(self, body):
         if body.path in self.summ_ret or body.path in self._in_progress:
             return
         self._in_progress.add(body.path)
         rf = self.rf(body)
-        edge_gen = collections.defaultdict(set)
+        edge_ops = collections.defaultdict(list)
         ok_bonus = {}       # origin bb -> events to add on its ok edges
         fwd_bonus = {}      # origin bb -> events that count if the result is forwarded as Ok
         for site in body.sites():
             bb = site.bb
             tgt_bb = site.term["t"]
+            if self.kills is not None and self.killers is not None and tgt_bb is not None:
+                ks = self.killers(site)
+                if ks:
+                    edge_ops[(bb, tgt_bb)].append(("kill", frozenset(ks)))
             cs = self._callee_summaries(site)
             if cs is not None:
                 ret, ok = cs
-                if tgt_bb is not None:
-                    edge_gen[(bb, tgt_bb)] |= ret
+                if tgt_bb is not None and ret:
+                    edge_ops[(bb, tgt_bb)].append(("gen", frozenset(ret)))
                 extra = ok - ret
                 if extra:
-                    ok_bonus[bb] = set(extra)
-                fwd_bonus[bb] = set(ok)
-            else:
-                g = self.gen(site)
-                if g:
-                    evs, fallible = g
-                    evs = set(evs)
-                    if not evs:
-                        continue
+                    ok_bonus.setdefault(bb, set()).update(extra)
+                fwd_bonus.setdefault(bb, set()).update(ok)
+            g = self.gen(site)
+            if g:
+                evs, fallible = g
+                evs = set(evs)
+                if evs:
                     if fallible:
                         ok_bonus.setdefault(bb, set()).update(evs)
                         fwd_bonus.setdefault(bb, set()).update(evs)
                     elif tgt_bb is not None:
-                        edge_gen[(bb, tgt_bb)] |= evs
+                        edge_ops[(bb, tgt_bb)].append(("gen", frozenset(evs)))
         for origin, evs in ok_bonus.items():
             for e in rf.ok_edges_of(origin):
-                edge_gen[e] |= evs
+                edge_ops[e].append(("gen", frozenset(evs)))
         # forward must dataflow
         blocks = sorted(body.reachable_blocks())
+        pruned = set(self.pruned(body))
         IN = {b: ALL for b in blocks}
         IN[0] = frozenset()
         work = collections.deque([0])
@@ -274,15 +294,18 @@ class MustFlow(object):
             if cur is ALL:
                 continue
             for s in body.succs(b):
-                out = cur | frozenset(edge_gen.get((b, s), ()))
-                new = meet(IN.get(s, ALL), out)
-                if IN.get(s, ALL) is ALL or new != IN[s]:
+                if (b, s) in pruned:
+                    continue
+                out = self._apply(cur, edge_ops.get((b, s), ()))
+                old = IN.get(s, ALL)
+                new = meet(old, out)
+                if old is ALL or new != old:
                     IN[s] = new
                     if s not in inq:
                         work.append(s)
                         inq.add(s)
         self.rel_in[body.path] = IN
-        self.edge_gen[body.path] = edge_gen
+        self.edge_ops[body.path] = edge_ops
         # summaries
         ret = ALL
         for rb in body.return_blocks():
@@ -301,10 +324,7 @@ class MustFlow(object):
                 any_exit = True
                 cur = set(IN[bb])
                 if isinstance(kind, tuple):
-                    o = kind[1]
-                    # events on the way from the origin call to this assignment are already in IN
-                    # only if the origin precedes; add the forwarded-ok bonus of the origin
-                    cur |= fwd_bonus.get(o, set())
+                    cur |= fwd_bonus.get(kind[1], set())
                 ok = meet(ok, frozenset(cur))
             if not any_exit:
                 ok = ret
@@ -312,13 +332,14 @@ class MustFlow(object):
             ok = ret
         if ok is ALL:
             ok = frozenset()
-        self.summ_ret[body.path] = frozenset(ret)
-        self.summ_ok[body.path] = frozenset(ok) | frozenset(ret)
+        role = frozenset(self.role_events.get(body.path, ()))
+        self.summ_ret[body.path] = frozenset(ret) | role
+        self.summ_ok[body.path] = frozenset(ok) | frozenset(ret) | role
         self._in_progress.discard(body.path)
 
     # ---- contexts ----
     def entry_sets(self, roots):
-        """ENTRY[f] = events that have happened on every call chain from a root to f's entry."""
+        """ENTRY[f] = events that hold on every call chain from a root to f's entry."""
         prog = self.prog
         ENTRY = {}
         for r in roots:
@@ -333,10 +354,9 @@ class MustFlow(object):
             IN = self.rel_in[p]
             base = ENTRY[p]
             for site in body.sites():
-                if site.bb not in IN or IN[site.bb] is ALL:
+                at = self._at(base, body, IN, site.bb)
+                if at is None:
                     continue
-                at = base | IN[site.bb]
-                tgts = []
                 if site.kind == "call":
                     tgts = [t for t, how in prog.call_targets(site)]
                 else:
@@ -354,13 +374,157 @@ class MustFlow(object):
                         work.append(tgt.path)
         return ENTRY
 
+    def _at(self, base, body, IN, bb):
+        rel = IN.get(bb, ALL)
+        if rel is ALL:
+            return None
+        if self.kills is None or not base:
+            return base | rel
+        # events of the context survive unless something on the way into this block may kill them:
+        # conservatively drop context events that any event in the body's own may-set kills
+        return self._ctx_filter(base, body) | rel
+
+    def _ctx_filter(self, base, body):
+        key = ("ctx", body.path)
+        ks = self.rel_in.get(key)
+        if ks is None:
+            ks = set()
+            if self.killers is not None:
+                for site in body.sites():
+                    ks |= set(self.killers(site))
+            self.rel_in[key] = ks
+        return frozenset(e for e in base if not any(self.kills(k, e) for k in ks))
+
     def at_site(self, ENTRY, site):
         """Must-set just before the terminator of site (entry context included); None if unreachable."""
         p = site.body.path
         if p not in ENTRY:
             return None
         self.summarize(site.body)
-        IN = self.rel_in[p].get(site.bb, ALL)
-        if IN is ALL:
+        return self._at(ENTRY[p], site.body, self.rel_in[p], site.bb)
+
+
+class MayFlow(object):
+    """May-happened-before: events that may have occurred earlier in the same top-level call.
+
+    gen(site) -> iterable of events attempted at an extern call/drop site (no Ok-sensitivity)."""
+
+    def __init__(self, prog, gen, subst=None, concrete=None):
+        self.prog = prog
+        self.gen = gen
+        self.subst = subst
+        self.concrete = concrete
+        self._all = {}
+        self._own = {}
+        self.rel_in = {}
+        self._closure()
+
+    def _targets(self, site):
+        prog = self.prog
+        if site.kind == "call":
+            return [t for t, how in prog.call_targets(site)]
+        return [d[1] for d in prog.drop_targets(site.term["ty"]) if d[0] == "local"]
+
+    def _closure(self):
+        prog = self.prog
+        own = {}
+        callees = {}
+        for b in prog.bodies.values():
+            evs = set()
+            cs = []
+            for site in b.sites():
+                for e in (self.gen(site) or ()):
+                    evs.add(e)
+                for t in self._targets(site):
+                    cs.append((site, t))
+            own[b.path] = evs
+            callees[b.path] = cs
+        allev = {p: set(s) for p, s in own.items()}
+        changed = True
+        while changed:
+            changed = False
+            for p in allev:
+                for site, t in callees[p]:
+                    add = allev[t.path]
+                    if self.subst is not None:
+                        add = set(x for x in (self.subst(e, site, t) for e in add) if x is not None)
+                    if not add <= allev[p]:
+                        allev[p] |= add
+                        changed = True
+        self._all = allev
+        self._own = own
+        self._callees = callees
+
+    def all_events(self, body_path):
+        return self._all.get(body_path, set())
+
+    def site_events(self, site):
+        out = set(self.gen(site) or ())
+        for t in self._targets(site):
+            add = self._all[t.path]
+            if self.subst is not None:
+                add = set(x for x in (self.subst(e, site, t) for e in add) if x is not None)
+            out |= add
+        return out
+
+    def solve_body(self, body):
+        if body.path in self.rel_in:
+            return self.rel_in[body.path]
+        IN = {0: frozenset()}
+        work = collections.deque([0])
+        inq = {0}
+        while work:
+            b = work.popleft()
+            inq.discard(b)
+            cur = IN[b]
+            t = body.blocks[b]["term"]
+            g = frozenset()
+            if t["k"] in ("call", "drop"):
+                g = frozenset(self.site_events(Site(body, b, t)))
+            for s in body.succs(b):
+                out = cur | g
+                if s not in IN:
+                    IN[s] = out
+                    changed = True
+                else:
+                    changed = not out <= IN[s]
+                    if changed:
+                        IN[s] = IN[s] | out
+                if changed and s not in inq:
+                    work.append(s)
+                    inq.add(s)
+        self.rel_in[body.path] = IN
+        return IN
+
+    def entry_sets(self, roots):
+        prog = self.prog
+        ENTRY = {r.path: frozenset() for r in roots}
+        work = collections.deque(ENTRY.keys())
+        while work:
+            p = work.popleft()
+            body = prog.bodies[p]
+            IN = self.solve_body(body)
+            for site in body.sites():
+                if site.bb not in IN:
+                    continue
+                at = ENTRY[p] | IN[site.bb]
+                if self.concrete is not None:
+                    at = frozenset(e for e in at if self.concrete(e))
+                for t in self._targets(site):
+                    q = t.path
+                    if q not in ENTRY:
+                        ENTRY[q] = at
+                        work.append(q)
+                    elif not at <= ENTRY[q]:
+                        ENTRY[q] = ENTRY[q] | at
+                        work.append(q)
+        return ENTRY
+
+    def before_site(self, ENTRY, site):
+        p = site.body.path
+        if p not in ENTRY:
             return None
-        return ENTRY[p] | IN
+        IN = self.solve_body(site.body)
+        if site.bb not in IN:
+            return None
+        return ENTRY[p] | IN[site.bb]
